@@ -120,6 +120,11 @@ def pname(plan):
 
 def cases(seed, nprob, ck_list=None):
     """yields (label, cks, seed_i, problem) over single compilers and pipelines"""
+    from rtc.crafted import crafted_cases
+    for i, (label, cks, pr) in enumerate(crafted_cases()):
+        if ck_list and cks[0] not in ck_list:
+            continue
+        yield label, cks, 9000000 + i, pr
     todo = [(ck,) for ck in COMPILERS] + PIPELINES
     for cks in todo:
         if ck_list and cks[0] not in ck_list:
